@@ -251,7 +251,18 @@ SPEC = {
             "final statics and initial values of file-scope constants are compared bit for bit on 5 argument vectors per function; "
             "C02.vex sends expression functions and statement-level vector assignments to the Lean vector model (tree of "
             "Model.GenMslVec == exporter's tree, Lean VIr.eval == Rust IR evaluation, Lean VMsl.eval == VIr.eval under the "
-            "theorems' hypotheses)",
+            "theorems' hypotheses). Operand repetition (harness/src/c02/vgend.rs, programs 1000000.. of the C02.vfn stream + stream C02.dup): "
+            "the exporter writes a cast to a struct `(S)value` as `S { v, v, ... }`, the operand once per scalar element; every program "
+            "of this family has an operand with an OBSERVABLE effect (i++ on an inout parameter or a local, a call that bumps a static, an "
+            "assignment, also inside a subscript index below members / swizzles / casts) or its effect-free twin: enumerated — every one "
+            "of 38 operands (7 leaves, 9 effect-free non-leaves, 22 with an effect) below a cast to a one-element and to a four-element "
+            "struct, every compound operator (10 integer, 5 floating) at 5 kinds of target whose index has an effect, 19 further statements "
+            "(scalar -> vector casts, constructors, swizzles of scalars, ++ on elements, swizzled stores, ?:, max/min/clamp/select/abs/dot/"
+            "mul, inout arguments, methods of subscripted objects, matrix from a scalar) x int/uint/float — then random ones over ten struct "
+            "shapes (nested structs, arrays of structs, vector members, mixed element kinds) and five statement positions; the two "
+            "evaluators count effects exactly (final inout arguments, final statics), so an operand written twice is a difference. C02.dup "
+            "sends every struct cast of these modules (type shape + constructor tree of the operand, read off the real ir::Module) to the "
+            "Lean model of the arm and compares its decision and clause counts with the emitted module",
     "level_text": "Proof of the logic of implicit threading: the usage fixpoint loop (modelled with explicit key iteration "
                   "order, explicit unwrap failures and fuel) is proved for every table to terminate within |keys|^2+1 passes "
                   "without panicking, to compute exactly reachability through the local-use relation independently of the "
@@ -293,7 +304,20 @@ SPEC = {
                   "gen_sem_msl_vec_expr through the extended side condition VOk.litOperandOK); "
                   "negation witnesses: the matrix constructor keeps row-major argument order (transposed matrix), "
                   "(float1)v is emitted as an ill-typed (float)v. Matrices, structs, arrays, enums, methods, calls with vector "
-                  "arguments are covered by the correspondence streams only.",
+                  "arguments are covered by the correspondence streams only. Operand repetition (Thm/C02Dup): Gen.MslDupSites lists on "
+                  "every run each explicit copy (.clone() / .cloned() / .to_vec() / vec![x; n] / repeat) in the Metal back end's seven files, "
+                  "each arm that contains one generator call twice and the text-building macros in generate_expression — the only ways an "
+                  "operand can reach the output twice, since syntax-tree values are not Copy; dup_sites_guarded checks the list against a "
+                  "reviewed classification (exactly one site repeats a generated operand: the struct half of the Cast arm), pins how often "
+                  "(get_member_count) and what happens otherwise (UnsupportedCast), and proves the re-extracted side-effect test SOUND: every "
+                  "constructor it accepts is strict and without effect and ALL its expression-typed fields (read off enum ir::Expression) are "
+                  "tested. repeatable_operand_is_pure: for every meaning of calls, operators, ?: and sequences (Spec.MslDup.Interp) an operand "
+                  "accepted by a sound test leaves the store unchanged, so n evaluations give n copies of the one value and the store of one "
+                  "evaluation; struct_cast_meaning_kept: whenever the modelled arm emits n clauses they evaluate to n times the operand's value "
+                  "with the final store of ONE evaluation (also through the one-element branch and for n = 0); repeatable_operand_is_pure_ir: the "
+                  "same on C01's typed IR (Ir.eval) for every World / Prim; index_blind_test_repeats_effect: the test of seeded mutant C02-3 is "
+                  "not sound and S { arr[i++], arr[i++] } differs from one evaluation (negation with witness). The model of the arm is tied to "
+                  "the code by the pinned text and by stream C02.dup (0 disagreements).",
     "trusted_base": [
         "Lean 4.33 kernel; axioms propext / Classical.choice / Quot.sound only (audited by #print axioms)",
         "tools/gens/c02.py (UsageTables): match-arm/field inventory of gather_usage_*, regex shape facts about "
@@ -334,6 +358,19 @@ SPEC = {
         "targets need distinct components; matrices floatCxR = C columns of R, constructor from scalars column-major, from one "
         "scalar diagonal, m[i] a column, M*v the linear-algebra product (Mat section: definitions used by mulMV_toMetal)",
         "the typed vector semantics Spec/SemVec of C01 (VIr.eval / evalTop / typeOf, shared, unchanged)",
+        "tools/gens/c02.py (MslDupSites): the regular expression that finds explicit copies, the innermost-function / innermost-arm "
+        "attribution, the parser of the side-effect test (a flat `match **expr` or a local recursive helper; any other shape is an "
+        "extraction failure = broken obligation), the field types of enum ir::Expression; Thm/C02Dup.reviewed: our reading of what each "
+        "of the 50 copy sites copies (type / name / list, expression made by the back end itself, operand moved into its replacement, "
+        "initialiser per entry wrapper, repeated operand)",
+        "Spec/MslDup.lean: which constructors of ir::Expression are strict and free of effects of their own (leaves, member / element / "
+        "component selection, Cast, Constructor, SizeOf: `strictPure`) — every other constructor is an arbitrary state transformer; Rust: "
+        "a value of a type that is not Copy is used at most once unless explicitly copied",
+        "C++14 aggregate initialisation as read by vmev_expr.rs: brace elision (a sub-aggregate without braces takes as many clauses as "
+        "it has elements, a vector / matrix / scalar one), clauses evaluated left to right, missing clauses value-initialise, a "
+        "narrowing conversion of a clause is ill-formed (float -> int always; int -> float / other integer type unless a constant that "
+        "fits; a literal, a signed literal or a file-scope `constant` is a constant); c01/virev.rs: `(S)x` for a scalar x gives every "
+        "scalar element of S the value x converted to the element's type (HLSL's scalar-to-struct cast; the operand evaluated once)",
         "harness/src/c02/vmev*.rs: an independent Rust implementation of the Metal reading extended to matrices, structs, "
         "arrays, enums, methods, references, aggregates and the metal:: library names (uninterpreted built-ins of c01/vval.rs "
         "under the name of the RSSL built-in they implement; `1 / x` = rcp; select argument order reversed); compared with "
@@ -370,6 +407,10 @@ SPEC = {
         "propagates it); `&&` `||` `?:` have scalar bool conditions (the type checker's own restriction in VIr.typeOf); "
         "assignment targets are vector variables or swizzles with distinct components of variables of vector type; `%=` on "
         "integers only (on floats: known finding). 95% of the generated expression / assignment functions satisfy them",
+        "operand repetition: the theorems speak about the repetition decision and the effect of repeating (store and value of the "
+        "operand); that each clause then initialises its element with the converted value is the Metal reading's business (oracle only; "
+        "where the element kind differs from the operand's in a narrowing direction the emitted list is ill-formed: known finding "
+        "metal-narrowing-conversion-in-braces). Casts from a ConstantBuffer<S> object and to unbounded arrays are outside the subset",
         "vector stream oracle: a method call whose argument writes the object is skipped (C01's typed evaluator copies the "
         "object in and out, C++ and DXC pass `this` by reference: not a difference of the exporter); built-ins whose Metal form "
         "is not a call of one library function (sign on ints, rcp only as `1 / x`) are skipped or read as stated above; initial "
